@@ -560,7 +560,14 @@ def check_triple(form: str, lc: str, rc: str, alias: bool, vl: dict, vr: dict) -
         probs.append(('value-mismatch', f'result differs from the specification product by {err:.3g} (tolerance {tol:.3g})'))
     if KIND.get(ob['cls']) != kl:
         probs.append(('result-kind', f'result is a {ob["cls"]}'))
-    inplace_ok = form == 'imatmul' and lc in ('Vec', 'Angle', 'Matrix') and ob['ident'] == 'L'
+    mutable_l = lc in ('Vec', 'Angle', 'Matrix')
+    inplace_ok = form == 'imatmul' and mutable_l and ob['ident'] == 'L'
+    if form == 'imatmul' and mutable_l and ob['ident'] != 'L':
+        # `x @= y` on a mutable receiver must update the object it was applied to: a caller that holds another reference to
+        # it (a list element, a loop variable, an attribute of some owner) reads the receiver, not the rebound name
+        probs.append(('not-in-place', f'the mutable receiver was not updated in place: @= returned '
+                      f'{"the right operand object" if ob["ident"] == "R" else "a new object"}, the receiver (and every other '
+                      f'reference to it) still holds {ob["L1"]} instead of the product {ob["val"]}'))
     if not inplace_ok:
         if ob['ident'] != 'fresh':
             probs.append(('result-not-fresh', f'the result is the {ob["ident"]} operand object itself'))
@@ -815,6 +822,190 @@ def search_composed(ck: Ck, found: dict) -> None:
             found[key] = (pr[1], {'kind': 'composed', 'a': a, 'b': b, 'form': form})
 
 
+# =============================================================================================== in-place forms
+# Round 4.  "in-place and frozen variants included": every in-place operator the six classes define or inherit
+# (+= -= *= /= //= %= @=) x every receiver class x every operand class, and the in-place rotation methods (Vec.localise,
+# Vec.transform(), Angle.transform(), Vec.rotate).  Protocol: on a MUTABLE receiver the object the operator was applied to is
+# returned and holds the value the pure operator returns; on a FROZEN receiver a new object is returned and the receiver keeps
+# its bits; the right operand is never changed; whatever the pure form supports the in-place form supports.
+INPLACE_OPS = [('iadd', 'add', '+='), ('isub', 'sub', '-='), ('imul', 'mul', '*='), ('itruediv', 'truediv', '/='),
+               ('ifloordiv', 'floordiv', '//='), ('imod', 'mod', '%='), ('imatmul', 'matmul', '@=')]
+INPLACE_RECEIVERS = ['Vec', 'FrozenVec', 'Angle', 'FrozenAngle', 'Matrix', 'FrozenMatrix']
+INPLACE_OPERANDS = CONCRETE + ['float', 'int']
+
+
+def make_operand(cls: str, vals: dict) -> Any:
+    if cls == 'float':
+        return float(vals['S'])
+    if cls == 'int':
+        return int(vals['S']) or 3
+    return make(cls, vals)
+
+
+def rand_vals_s(rng: random.Random) -> dict:
+    d = rand_vals(rng)
+    d['S'] = rng.choice([2.0, -3.0, 0.5, 7.25, rng.uniform(-9, 9) or 1.0, 360.0, 1e-3])
+    return d
+
+
+def close_snap(cls: str, a: tuple, b: tuple) -> bool:
+    """Two snapshots of objects of class `cls` agree up to rounding (angles: modulo a full turn)."""
+    if len(a) != len(b):
+        return False
+    for x, y in zip(a, b):
+        if x != x and y != y:
+            continue
+        if x in (math.inf, -math.inf) or y in (math.inf, -math.inf):
+            if x != y:
+                return False
+            continue
+        d = abs(x - y)
+        if KIND[cls] == 'A':
+            d = min(d, abs(360.0 - d))
+        if not d <= TOL * max(1.0, abs(x), abs(y)):
+            return False
+    return True
+
+
+def inplace_op_problems(iname: str, pname: str, lc: str, rc: str, vl: dict, vr: dict) -> list[tuple[str, str]] | None:
+    import operator
+    import warnings
+    with warnings.catch_warnings():
+        warnings.simplefilter('ignore')
+        x0, y0 = make(lc, vl), make_operand(rc, vr)
+        try:
+            pure = getattr(operator, pname)(x0, y0)
+        except (TypeError, ZeroDivisionError, ValueError, OverflowError):
+            return None                 # the pure form does not support this pair: nothing is required of the in-place one
+        if type(pure).__name__ != lc:
+            return None                 # e.g. a future Vec * Vec -> float: not an in-place candidate
+        x, y = make(lc, vl), make_operand(rc, vr)
+        alias = [x]                     # the other reference
+        sx, sy = snapshot(x), (snapshot(y) if rc in KIND else y)
+        try:
+            res = getattr(operator, iname)(x, y)
+        except Exception as e:          # noqa: BLE001
+            return [('exception', f'x {iname} y raised {type(e).__name__}: {e} although the pure operator returns {pure!r}')]
+    probs: list[tuple[str, str]] = []
+    mutable_l = lc in ('Vec', 'Angle', 'Matrix')
+    if type(res).__name__ != lc:
+        return [('result-class', f'result is a {type(res).__name__}')]
+    if not close_snap(lc, snapshot(res), snapshot(pure)):
+        probs.append(('differs-from-pure', f'the in-place form returns {snapshot(res)} but the pure operator {snapshot(pure)}'))
+    if mutable_l:
+        if res is not alias[0]:
+            probs.append(('not-in-place', f'mutable receiver not updated: a new object was returned and the receiver still '
+                          f'holds {snapshot(alias[0])}'))
+        elif not close_snap(lc, snapshot(alias[0]), snapshot(pure)):
+            probs.append(('receiver-value', f'the receiver holds {snapshot(alias[0])} afterwards, the pure operator returns {snapshot(pure)}'))
+    else:
+        if res is alias[0]:
+            probs.append(('frozen-receiver-returned', 'the frozen receiver itself was returned'))
+        if [bits(v) for v in snapshot(alias[0])] != [bits(v) for v in sx]:
+            probs.append(('frozen-receiver-mutated', f'the frozen receiver changed from {sx} to {snapshot(alias[0])}'))
+    if rc in KIND and y is not x and [bits(v) for v in snapshot(y)] != [bits(v) for v in sy]:
+        probs.append(('operand-mutated', f'the right operand changed from {sy} to {snapshot(y)}'))
+    return probs
+
+
+def inplace_method_problems(name: str, rc: str, vl: dict, vr: dict) -> list[tuple[str, str]]:
+    """The in-place rotation methods against the pure operators: Vec.localise(origin, angles) is `v @ angles + origin`,
+    `with v.transform() as m: m @= A` is `v @ A`, `with a.transform() as m: m @= A` is `a @ A`, Vec.rotate(p, y, r,
+    round_vals=False) is `v @ Angle(p, y, r)`; each updates the receiver object and nothing else."""
+    import warnings
+    from srctools.math import Angle, Vec
+    probs: list[tuple[str, str]] = []
+    R = None if rc == 'None' else make(rc, vr)
+    sR = None if R is None else snapshot(R)
+    rm = [[1.0, 0, 0], [0, 1.0, 0], [0, 0, 1.0]] if R is None else as_ref_mat((rc, sR))
+    try:
+        with warnings.catch_warnings():
+            warnings.simplefilter('ignore')
+            if name == 'Angle.transform':
+                a = Angle(*vl['A'])
+                keep = a
+                lm = ref_from_angle(*snapshot(a))
+                with a.transform() as m:
+                    m @= R
+                want = ref_mul(lm, rm)
+                h = horiz_of(want)
+                tol = TOL if h > GIMBAL + 1e-9 else 2 * h + TOL + (2 * GIMBAL if abs(h - GIMBAL) <= 1e-9 else 0)
+                e = maxdiff(ref_from_angle(*snapshot(keep)), want)
+                if not e <= tol:
+                    probs.append(('value', f'after `with a.transform() as m: m @= r` the angle differs from a @ r by {e:.3g}'))
+            else:
+                v = Vec(*vl['V'])
+                keep = v
+                scale = max(1.0, vmag(vl['V']))
+                want = ref_rot(list(vl['V']), rm)
+                ret = None
+                if name == 'Vec.localise':
+                    org = vr['V']
+                    scale = max(scale, vmag(org))
+                    want = [w + o for w, o in zip(want, org)]
+                    ret = v.localise(Vec(*org), R)
+                elif name == 'Vec.transform':
+                    with v.transform() as m:
+                        m @= R
+                else:
+                    p, y, r = vr['A']
+                    want = ref_rot(list(vl['V']), ref_from_angle(p % 360.0 % 360.0, y % 360.0 % 360.0, r % 360.0 % 360.0))
+                    ret = v.rotate(p, y, r, False)
+                    if ret is not keep:
+                        probs.append(('not-in-place', 'Vec.rotate() did not return the receiver'))
+                    ret = None
+                if ret is not None:
+                    probs.append(('return', f'{name} returned {ret!r}'))
+                e = max(abs(g - w) for g, w in zip(snapshot(keep), want))
+                if not e <= TOL * scale:
+                    probs.append(('value', f'after {name} the receiver differs from the pure form by {e:.3g}'))
+    except Exception as e:      # noqa: BLE001
+        return [('exception', f'{name} raised {type(e).__name__}: {e}')]
+    if R is not None and [bits(x) for x in snapshot(R)] != [bits(x) for x in sR]:
+        probs.append(('operand-mutated', f'{name} changed its rotation argument from {sR} to {snapshot(R)}'))
+    return probs
+
+
+INPLACE_METHODS = [('Vec.localise', ['Angle', 'FrozenAngle', 'Matrix', 'FrozenMatrix', 'None']),
+                   ('Vec.transform', ['Angle', 'FrozenAngle', 'Matrix', 'FrozenMatrix']),
+                   ('Angle.transform', ['Angle', 'FrozenAngle', 'Matrix', 'FrozenMatrix']),
+                   ('Vec.rotate', ['Angle'])]
+
+
+def search_inplace(ck: Ck, found: dict) -> None:
+    reps = ck.budget(2, 25)
+    for iname, pname, sym in INPLACE_OPS:
+        for lc in INPLACE_RECEIVERS:
+            for rc in INPLACE_OPERANDS:
+                if iname != 'imatmul' and KIND.get(rc) in ('A', 'M'):
+                    continue        # number arithmetic with a rotation as operand is meaningless (Vec * Angle happens to "work")
+                for _ in range(reps):
+                    vl, vr = rand_vals_s(ck.rng), rand_vals_s(ck.rng)
+                    ck.count('inplace_operator_cases')
+                    probs = inplace_op_problems(iname, pname, lc, rc, vl, vr)
+                    if probs is None:
+                        ck.hist('inplace_operator', 'pair not supported by the pure operator')
+                        break
+                    ck.hist('inplace_operator', sym)
+                    ck.seen(('inplace', sym, lc, rc, vl['V'], vl['A'], vr['V'], vr['A'], vr['S']))
+                    for prob, desc in probs:
+                        key = f'inplace-{prob}:{lc}:{sym}'
+                        if key not in found:
+                            found[key] = (f'{lc} {sym} {rc}: {desc}', {'kind': 'inplace-op', 'iname': iname, 'pname': pname, 'l': lc,
+                                                                   'r': rc, 'left': vl, 'right': vr})
+    for name, rcs in INPLACE_METHODS:
+        for rc in rcs:
+            for _ in range(ck.budget(6, 60)):
+                vl, vr = rand_vals_s(ck.rng), rand_vals_s(ck.rng)
+                ck.count('inplace_method_cases')
+                ck.hist('inplace_method', name)
+                ck.seen(('inplace-method', name, rc, vl['V'], vl['A'], vr['A'], vr['M'], vr['V']))
+                for prob, desc in inplace_method_problems(name, rc, vl, vr):
+                    key = f'inplace-method-{prob}:{name}'
+                    if key not in found:
+                        found[key] = (f'{name} with a {rc}: {desc}', {'kind': 'inplace-method', 'name': name, 'r': rc, 'left': vl, 'right': vr})
+
+
 # =============================================================================================== axioms
 def theorems_with_axioms(ck: Ck, props_file: str = 'Props/C04.v') -> None:
     """Same job as Ck.theorems (one `theorem:` obligation per theorem, axioms recorded), with a complete parser:
@@ -1043,6 +1234,9 @@ def run(ck: Ck) -> None:
         group(DISP_IMPORTS, {
             'dispatch_matmul_rows_ok': 'forallb (fun t => triple_ok t && handled t) (rows_of FMatmul dispatch_table)',
             'dispatch_imatmul_rows_ok': 'forallb (fun t => triple_ok t && handled t) (rows_of FImatmul dispatch_table)',
+            # the in-place protocol: a mutable receiver is returned itself (holding the product), a frozen one never is
+            'dispatch_inplace_on_mutable_receiver_stores_into_self': 'forallb inplace_ok (rows_mut true dispatch_table)',
+            'dispatch_inplace_on_frozen_receiver_returns_new_object': 'forallb inplace_ok (rows_mut false dispatch_table)',
             'dispatch_reflected_rows_ok': 'forallb (fun t => triple_ok t && handled t) (rows_of FRmatmul dispatch_table)',
             'dispatch_table_complete': 'covered dispatch_table',
             'dispatch_table_ok': 'table_ok dispatch_table',
@@ -1125,12 +1319,13 @@ def run(ck: Ck) -> None:
     search_operands(ck, found)
     search_identities(ck, found)
     search_composed(ck, found)
+    search_inplace(ck, found)
     for key, (what, rp) in sorted(found.items()):
         ck.violation(key, what, rp)
     keys = set(found)
     # A rejected dispatch row / failed proof is explained when the search exhibits the corresponding concrete failure.
     if any(k.startswith(('left-operand-mutated', 'right-operand-mutated', 'result-not-fresh', 'value-mismatch', 'unsupported',
-                         'exception', 'result-kind')) for k in keys):
+                         'exception', 'result-kind', 'not-in-place')) for k in keys):
         ck.explain('instance:dispatch_')
     if any(k.startswith(TO_ANGLE_KEYS) for k in keys):
         ck.explain('instance:to_angle_')
@@ -1238,6 +1433,18 @@ def replay(data: dict) -> int:
         print('from_angle', r['a'], '@ from_angle', r['b'], 'form', r['form'])
         print('problem   :', pr or 'none')
         return 1 if pr else 0
+    if r.get('kind') == 'inplace-op':
+        probs = inplace_op_problems(r['iname'], r['pname'], r['l'], r['r'], {k: (tuple(v) if isinstance(v, list) else v) for k, v in r['left'].items()},
+                                    {k: (tuple(v) if isinstance(v, list) else v) for k, v in r['right'].items()})
+        print('in-place operator', r['iname'], 'on', r['l'], 'and', r['r'], r['left'], r['right'])
+        print('problems  :', probs or 'none')
+        return 1 if probs else 0
+    if r.get('kind') == 'inplace-method':
+        probs = inplace_method_problems(r['name'], r['r'], {k: (tuple(v) if isinstance(v, list) else v) for k, v in r['left'].items()},
+                                        {k: (tuple(v) if isinstance(v, list) else v) for k, v in r['right'].items()})
+        print('in-place method', r['name'], 'with a', r['r'], r['left'], r['right'])
+        print('problems  :', probs or 'none')
+        return 1 if probs else 0
     if r.get('kind') == 'identity':
         probs = ident_problems(*r['angle'], tuple(r['vector']), tuple(r['second_angle']))
         print('angle', r['angle'], 'vector', r['vector'], 'second angle', r['second_angle'])
